@@ -575,10 +575,6 @@ func (c *tunnelChannel) close(err error) bool {
 	c.finished = true
 	verifEvent("cli.close.marked", 0, int64(len(c.streams)), 0)
 	if err == nil {
-		// not a clean close if the underlying stream's context already ended
-		err = c.ctx.Err()
-	}
-	if err == nil {
 		err = io.EOF
 	}
 	c.err = err
